@@ -129,7 +129,13 @@ def apply(c):
                 labels[-1] = "corr:flip-na"
                 continue
             done.add(ident)
-            raw = flip_bytes(raw, k["pos"], k["bit"])
+            if nm not in FLIP_FIELDS:
+                raw = certs.flip_in_signed_or_signature(raw, k["pos"], k["bit"])
+            elif f == "key":
+                # byte 0 is the point-encoding prefix (04 -> 06/07 is the same key); flip x / y
+                raw = raw[:1] + flip_bytes(raw[1:], k["pos"], k["bit"])
+            else:
+                raw = flip_bytes(raw, k["pos"], k["bit"])
             e[f] = raw.hex() if nm in FLIP_FIELDS else certs.der_to_b64(raw)
             labels.append("flip:%s.%s" % (nm, f) if nm in FLIP_FIELDS else "flip:x509")
             broken.add(nm)
